@@ -29,6 +29,11 @@ type cop struct {
 	chunk    []byte // what msg.Chunk() returns
 	chunkErr bool
 	wfault   int // -1: none; n: the connection accepts n more bytes during this call, then fails
+	// how the failing Write reports itself, and what further Writes of the same call meet: a caller that
+	// retries (it must not lose, repeat or reorder bytes, nor report success) sees wmore[0] bytes accepted by
+	// the next Write before that fails the same way, and so on; after the list every Write succeeds
+	werr  error
+	wmore []int
 	resp     []byte
 	silent   bool          // after resp the peer stays silent (read deadline) instead of EOF
 	delay    time.Duration // resp is delivered after this delay
@@ -115,8 +120,11 @@ func runClientOps(cf ccfg, ops []cop) []copResult {
 	var (
 		mu     sync.Mutex
 		cur    []string
-		tag    = 0
-		budget = -1
+		tag      = 0
+		budget   = -1
+		more     []int
+		moreSet  bool
+		faultErr error = errFault
 	)
 	f := &fakes.Factory{FailOn: map[int]bool{}}
 	f.Log = func(ev string) {
@@ -136,8 +144,14 @@ func runClientOps(cf ccfg, ops []cop) []copResult {
 				if budget >= len(b) {
 					budget -= len(b)
 				} else {
-					n, err = budget, errFault
-					budget = 0
+					n, err = budget, faultErr
+					if len(more) > 0 {
+						budget, more = more[0], more[1:]
+					} else if moreSet {
+						budget = -1 // the list is used up: the connection is healthy again
+					} else {
+						budget = 0
+					}
 				}
 			}
 			if pendingResp != nil && err == nil {
@@ -162,6 +176,11 @@ func runClientOps(cf ccfg, ops []cop) []copResult {
 		tag = 0
 		mu.Unlock()
 		budget = o.wfault
+		more, moreSet = append([]int{}, o.wmore...), o.wmore != nil
+		faultErr = errFault
+		if o.werr != nil {
+			faultErr = o.werr
+		}
 		pendingResp = nil
 		var err error
 		var ret string
@@ -324,3 +343,10 @@ var (
 	stirN    int
 	stirCl   *client.Client
 )
+
+// netFault: a write error of the net.Error family (what a deadline or a full socket buffer produces).
+type netFault struct{ timeout, temporary bool }
+
+func (e netFault) Error() string   { return fmt.Sprintf("fake: write fault (timeout=%v temporary=%v)", e.timeout, e.temporary) }
+func (e netFault) Timeout() bool   { return e.timeout }
+func (e netFault) Temporary() bool { return e.temporary }
